@@ -81,8 +81,8 @@ func (m *MemMapFs) unRegisterWithParent(fileName string) error {
 	}
 
 	parent.Lock()
+	defer parent.Unlock()
 	mem.RemoveFromMemDir(parent, f)
-	parent.Unlock()
 	return nil
 }
 
@@ -134,9 +134,9 @@ func (m *MemMapFs) registerWithParent(f *mem.FileData, perm os.FileMode) {
 	}
 
 	parent.Lock()
+	defer parent.Unlock()
 	mem.InitializeDir(parent)
 	mem.AddToMemDir(parent, f)
-	parent.Unlock()
 }
 
 func (m *MemMapFs) lockfreeMkdir(name string, perm os.FileMode) error {
@@ -469,7 +469,9 @@ func (m *MemMapFs) Chtimes(name string, atime time.Time, mtime time.Time) error 
 }
 
 func (m *MemMapFs) List() {
-	for _, x := range m.data {
+	m.mu.RLock()
+	defer m.mu.RUnlock()
+	for _, x := range m.getData() {
 		y := mem.FileInfo{FileData: x}
 		fmt.Println(x.Name(), y.Size())
 	}
